@@ -148,36 +148,48 @@ def takeDigits : Bytes → Bytes × Bytes
     else ([], b :: rest)
   | [] => ([], [])
 
+/-- An optional minus sign. -/
+def takeSign (s : Bytes) : Bytes × Bytes :=
+  match s with
+  | 45 :: r => ([45], r)
+  | _ => ([], s)
+
+/-- An optional fraction: the dot and the digits after it (`[46]` alone = a dot without digits). -/
+def takeFrac (s : Bytes) : Bytes × Bytes :=
+  match s with
+  | 46 :: r =>
+    let (ds, r') := takeDigits r
+    (46 :: ds, r')
+  | _ => ([], s)
+
+/-- An optional exponent; a 0 byte in the result marks "no digits". -/
+def takeExp (s : Bytes) : Bytes × Bytes :=
+  match s with
+  | e :: r =>
+    if e = 101 ∨ e = 69 then
+      let (sign, r1) : Bytes × Bytes := match r with
+        | 43 :: r' => ([43], r')
+        | 45 :: r' => ([45], r')
+        | _ => ([], r)
+      let (ds, r2) := takeDigits r1
+      (e :: sign ++ (if ds = [] then [0] else ds), r2)
+    else ([], s)
+  | [] => ([], s)
+
 /-- Number token: `-? (0 | [1-9][0-9]*) (\.[0-9]+)? ([eE][+-]?[0-9]+)?`; returns the token text and
 the rest. -/
 def numberToken (s : Bytes) : Option (Bytes × Bytes) :=
-  let (neg, s1) := match s with
-    | 45 :: r => ([(45 : UInt8)], r)
-    | _ => ([], s)
+  let (neg, s1) := takeSign s
   let (int, s2) := takeDigits s1
   if int = [] then none
   else if int.length > 1 ∧ int.head? = some 48 then
     -- a leading zero ends the integer part: "01" is the number 0 followed by garbage
     some (neg ++ [48], int.drop 1 ++ s2)
   else
-    let (frac, s3) : Bytes × Bytes := match s2 with
-      | 46 :: r =>
-        let (ds, r') := takeDigits r
-        (46 :: ds, r')
-      | _ => ([], s2)
+    let (frac, s3) := takeFrac s2
     if frac = [46] then none
     else
-      let (exp, s4) : Bytes × Bytes := match s3 with
-        | e :: r =>
-          if e = 101 ∨ e = 69 then
-            let (sign, r1) : Bytes × Bytes := match r with
-              | 43 :: r' => ([43], r')
-              | 45 :: r' => ([45], r')
-              | _ => ([], r)
-            let (ds, r2) := takeDigits r1
-            (e :: sign ++ (if ds = [] then [0] else ds), r2)     -- a 0 byte marks "no digits"
-          else ([], s3)
-        | [] => ([], s3)
+      let (exp, s4) := takeExp s3
       if exp.contains 0 then none
       else some (neg ++ int ++ frac ++ exp, s4)
 
